@@ -11,8 +11,9 @@
 //  * intersection: p in intersection(A,B) <=> p in A and p in B, for ALL boxes and all p.
 //  * intersects, non-empty A,B: a common point p implies intersects (p universally quantified); intersects implies the
 //    witness w = componentwise max of the minima is a common point.
-//  * no common point => null box: asserted for non-empty operands (for an empty operand the library predicate
-//    `intersects` may hold although the point sets are disjoint, the result is then an empty, non-null box).
+//  * no common point => null box: asserted for non-empty operands through the point sets, and for ALL operands through
+//    the library predicate: !intersects(a,b) => null box (for an empty operand `intersects` may hold although the point
+//    sets are disjoint, the result is then an empty, non-null box - not asserted to be null).
 //  * contains(A,B), non-empty B: contains and p in B => p in A (all p); contains <=> the two extreme lattice points of B
 //    (lo and hi-1) lie in A (a box is a subset of a box iff its extreme points are members).
 //  * extend_bounding_box(A,B), non-empty A,B: superset of both (all p) and for EVERY box C (symbolic) that is a superset
@@ -217,6 +218,9 @@ void inter()
   verif_assert(fcppt::math::box::contains_point(r, mkvec<T, N>(P.c)) == (in(A, P) & in(B, P)), "contains_point(intersection(A,B),p) <=> both contain p");
   verif_assert(its == fcppt::math::box::intersects(b, a), "intersects is symmetric");
   verif_assert(same(rd(fcppt::math::box::intersection(b, a)), R), "intersection is symmetric");
+  // "If there is no intersection, the null box will be returned" - for ALL boxes, also empty and inverted operands, with
+  // the library's own predicate (which is tied to the point sets for non-empty boxes below)
+  if (!its) verif_assert(is_null(r), "boxes that do not intersect (library predicate): intersection is the null box");
   if (nonempty(A) & nonempty(B))
   {
     verif_assert(!(in(A, P) & in(B, P)) | its, "non-empty boxes with a common point intersect");
